@@ -116,14 +116,27 @@ def digest_tables():
             for x in sorted(o, key=repr): walk(x)
             h.update(b'>'); return
         if tn in ('function', 'builtin_function_or_method', 'method', 'type', 'module', 'classmethod', 'staticmethod'):
-            h.update(('F:%s' % getattr(o, '__qualname__', getattr(o, '__name__', tn))).encode()); return
+            h.update(('F:%s' % getattr(o, '__qualname__', getattr(o, '__name__', tn))).encode())
+            # default argument values are objects shared by every call (mutable defaults, default expression nodes)
+            dflt = getattr(o, '__defaults__', None)
+            if dflt:
+                h.update(b'(defaults')
+                for x in dflt: walk(x)       # (no temporary container: its id could be reused and taken for an object seen before)
+                h.update(b')')
+            return
         if tn.startswith('Expr'):
             # structural part and the memo flags separately: flags on shared singletons are reported by the repeat clause, not here
             h.update(repr(edesc(o)).encode()); return
         h.update(('O:%s' % tn).encode())
         d = getattr(o, '__dict__', None)
         if d is not None: walk(d)
-        else: h.update(repr(o).encode())
+        slots = [sl for k in type(o).__mro__ for sl in getattr(k, '__slots__', ())]
+        if slots:
+            for sl in slots:
+                if hasattr(o, sl):
+                    h.update(('.%s=' % sl).encode()); walk(getattr(o, sl))
+        elif d is None:
+            h.update(('R:%s' % tn).encode())
     sys.setrecursionlimit(100000)
     walk(A.x86mndb)
     for n in ('r_eax', 'r_cl', 'r_ax', 'r_dx', 'segm_regs', 'prefix_seg', 'att_mnemo_table', 'mnemo_mmx_hash'):
@@ -150,6 +163,7 @@ BYTES = ['90', '88e4', '88c0', '6689db', '89d8', '01d8', '8b4304', '894304', '03
          '8b0418', '648b0418', '668b0418', '8d0418', '8a0418', '8b0424', '368b0424', '8b00', '8a00', '0fb600', '60', '61', '6660', '6661', '9c', '9d',
          # segment overrides in front of instructions with implicit register operands (cl, dx, al/eax, st): the override belongs to the memory operand only
          '26d320', 'd320', '2eec', 'ec', '64d3e0', '26ee', 'ee', '36d2e0', '26d800', 'd800', '2ee6e0', '65ef', '26d3f8', '640fa5c3', '0fa5c3', '640fadc3',
+         '66c3', 'c3', '66c20400', 'c20400', '66cb', 'cb', '66cf', '66c9', '669c', '669d', '6650', '6658',
          '678b00', '67e800000000', 'e800000000', '670f8400000000', '0f8400000000', '0f8510000000', '66e80000', 'e2fe', '67e2fe', '7405', 'eb05', 'e910000000']
 BAD_BYTES = ['0f', '0fff', 'ff', '66', 'd6' * 0 or 'f1f1f1', '0f0f', '8b']
 LINES = ['mov eax, ebx', 'add eax, 5', 'mov eax, DWORD PTR [ebx+4]', 'mov DWORD PTR [ebx+ecx*4+8], eax', 'push eax', 'pop ebx', 'lea eax, [ebx+esi*2+16]', 'mov ah, ah',
@@ -856,6 +870,13 @@ def main(argv):
     sys.setrecursionlimit(20000)
     run = Run('C12', tier, seed, 'other', 'cd /verif && ./vcheck C12 --tier %s' % tier)
     quiet()
+    # the digest of the shared tables is taken FIRST, before this process has decoded, assembled or lifted anything (the other parts of the
+    # check already use the API: a table changed by the very first call would otherwise become the baseline)
+    from miasmx.arch.ia32_arch import x86mnemo
+    from miasmx.arch import ia32_sem
+    from miasmx.expression import expression_eval_abstract, expression_helper
+    from miasmx.tools import emul_helper
+    d0 = digest_tables()
     # ---- static
     n_ok, n_flag = static_frames(run)
     # ---- copy contract
@@ -867,7 +888,6 @@ def main(argv):
     from miasmx.tools import emul_helper
     from checks import C11
     _templates()
-    d0 = digest_tables()
     N = 2000 if tier == 'quick' else 50000
     H = [gen_history(seed, i) for i in range(N)]
     chunks = [H[i:i + 25] for i in range(0, len(H), 25)]
@@ -891,6 +911,27 @@ def main(argv):
     def tables_child():
         W = World(12345)
         rng = random.Random(seed + 99)
+        # first every entry of the byte / text pools once, in both syntaxes and lifted (deterministic part), then a random mixed history
+        from miasmx.arch.ia32_arch import x86mnemo as _m
+        from miasmx.tools import emul_helper as _eh
+        from miasmx.expression.expression import ExprInt as _EI
+        from miasmx.tools.modint import uint32 as _u32
+        import binascii as _ba
+        for hx in BYTES + BAD_BYTES:
+            try:
+                i_ = _m.dis(_ba.unhexlify(hx))
+                if i_ is not None:
+                    str(i_); i_.__str__('att_syntax binutils')
+                    i_.offset = 0
+                    _eh.get_instr_expr(i_, _EI(_u32(i_.l)), [])
+            except Exception:
+                pass
+        for ln in LINES + BAD_LINES:
+            try: _m.asm(ln)
+            except Exception: pass
+        for ln in ATT_LINES + BAD_ATT:
+            try: _m.asm_att(ln)
+            except Exception: pass
         for i in range(400 if tier == 'quick' else 4000):
             W.call((rng.choice(HIST_KINDS), rng.randrange(1 << 30), rng.randrange(1 << 30)))
         return digest_tables()
